@@ -950,3 +950,85 @@ def r13_18_clones_are_deep(ctx: Ctx) -> RuleResult:
         else:
             rr.ok({"clone": f.qual, "via": [t for t in calls if "copy" in t][:2]})
     return rr
+
+
+@rule("C13")
+def r13_19_patterns_are_not_written_after_construction(ctx: Ctx) -> RuleResult:
+    """Pattern objects are shared (the standard patterns are process-wide singletons) and documented as thread-safe: `format` and
+    `parse` may be running in several threads at once.  A scratch object kept on the pattern and reused by `format` (a
+    StringBuilder reset with `length = 0`) makes two concurrent calls write into one buffer.  In every class of the text layer that
+    implements both `format` and `parse`, no method other than the constructor stores to `self`, stores to an attribute of an object
+    reached from `self`, or calls a mutator on it - directly or through a local alias."""
+    MUT = ("append", "extend", "insert", "clear", "pop", "remove", "update", "setdefault", "add", "sort", "reverse", "append_format_integer")
+    rr = RuleResult("R13.19", "pattern objects (format + parse implementations) are never written after construction: no stored scratch buffer is reused by format / parse", min_instances=8)
+    M = ctx.M
+    for c in sorted(M.all_classes(), key=lambda k: k.name):
+        if "/text/" not in c.mod.rel:
+            continue
+        names = {f.name for f in c.all_defs if not isinstance(f.node, ast.Lambda)}
+        if not ({"format", "parse"} <= names):
+            continue
+        for f in sorted(c.all_defs, key=lambda g: g.qual):
+            if isinstance(f.node, ast.Lambda) or f.cls is not c or f.name in ("__init__", "_ctor", "__new__", "__init_subclass__") or f.kind in ("classmethod", "staticmethod") or f.self_name is None:
+                continue
+            rr.inst()
+            sn = f.self_name
+            alias = set()
+            for n in own_nodes(f.node):
+                if isinstance(n, (ast.Assign, ast.AnnAssign)) and getattr(n, "value", None) is not None and isinstance(n.value, ast.Attribute) and isinstance(n.value.value, ast.Name) and n.value.value.id == sn:
+                    for t in [n.target] if isinstance(n, ast.AnnAssign) else n.targets:
+                        if isinstance(t, ast.Name):
+                            alias.add(t.id)
+
+            def rooted(e) -> bool:
+                while isinstance(e, (ast.Attribute, ast.Subscript)):
+                    e = e.value
+                return isinstance(e, ast.Name) and (e.id == sn or e.id in alias)
+
+            bad = None
+            for n in own_nodes(f.node):
+                tg = []
+                if isinstance(n, ast.Assign):
+                    tg = n.targets
+                elif isinstance(n, (ast.AugAssign, ast.AnnAssign)):
+                    tg = [n.target]
+                for t in tg:
+                    if isinstance(t, (ast.Attribute, ast.Subscript)) and rooted(t):
+                        bad = bad or (n, f"stores to `{unparse(t)}`")
+                if isinstance(n, ast.Call) and isinstance(n.func, ast.Attribute) and n.func.attr in MUT and rooted(n.func.value) and not (isinstance(n.func.value, ast.Name) and n.func.value.id == sn):
+                    bad = bad or (n, f"calls `{unparse(n.func)}` on state kept in the pattern")
+            if bad is None:
+                rr.ok({"method": f.qual})
+            else:
+                rr.fail(f.qual, f"{bad[1]}: the pattern object is shared between threads, so two concurrent calls work on the same scratch state (one call's text ends up in the other's result)", ctx.loc(f, bad[0]))
+    return rr
+
+
+@rule("C13")
+def r13_20_cache_slots_are_read_once(ctx: Ctx) -> RuleResult:
+    """A direct-mapped cache shared between threads (year starts, zone-interval nodes): the slot is read ONCE into a local, the
+    local is validated for the key, and the answer comes from that local (or from the entry just built).  Reading the slot a second
+    time after the validation - `if not cache[i].valid(key): cache[i] = new;  return cache[i].value` - returns whatever another
+    thread stored there in between: the start of a year 1024 years away."""
+    rr = RuleResult("R13.20", "a shared direct-mapped cache slot is read once per lookup: the validated local (or the entry just built) supplies the answer, never a second read of the slot", min_instances=2)
+    M = ctx.M
+    for f in sorted(set(M.func_of_node.values()), key=lambda x: x.qual):
+        if isinstance(f.node, ast.Lambda) or f.cls is None or f.self_name is None or "_compatibility" in f.mod.rel:
+            continue
+        loads: dict[str, list] = {}
+        stores: dict[str, int] = {}
+        for n in own_nodes(f.node):
+            if isinstance(n, ast.Subscript) and isinstance(n.value, ast.Attribute) and isinstance(n.value.value, ast.Name) and n.value.value.id == f.self_name and "cache" in n.value.attr.lower():
+                if isinstance(n.ctx, ast.Load):
+                    loads.setdefault(n.value.attr, []).append(n)
+                elif isinstance(n.ctx, ast.Store):
+                    stores[n.value.attr] = stores.get(n.value.attr, 0) + 1
+        for attr, ls in sorted(loads.items()):
+            if not stores.get(attr):
+                continue  # read-only table in this function
+            rr.inst()
+            if len(ls) == 1:
+                rr.ok({"fn": f.qual, "cache": attr})
+            else:
+                rr.fail(f.qual, f"`{unparse(ls[1])}` reads the shared slot again (the slot is read {len(ls)} times and written in this lookup): between the validation and this read another thread can store the entry of a colliding key, whose value is then returned for this key", ctx.loc(f, ls[1]))
+    return rr
